@@ -52,6 +52,29 @@ def induction_on_seq(ex, prop, name, vars_, stmt, on, extra_hyps=(), hints=()):
     return obls
 
 
+def induction_on_int(ex, prop, name, vars_, stmt, on, base=0):
+    """forall vars with on >= base. stmt, by induction on the integer variable `on`
+    (base: on == base;  step: on > base and stmt[on := on - 1] (same values of the other variables) ==> stmt)."""
+    obls = []
+    st = State()
+    env = _env(ex, st, vars_)
+    n = env[on]
+    goal = ex.spec.bool(stmt, SpecEnv(st, dict(env)))
+    side = list(ex.spec.side)
+    ex.spec.side = []
+    obls.append(Obl(prop, 'lemma.' + name, 'base', '-', [n.t == base] + side, goal, 'lemma'))
+    env_h = dict(env)
+    env_h[on] = VInt(n.t - 1)
+    hyp = ex.spec.bool(stmt, SpecEnv(st, env_h))
+    hside = list(ex.spec.side)
+    ex.spec.side = []
+    goal = ex.spec.bool(stmt, SpecEnv(st, dict(env)))
+    side = list(ex.spec.side)
+    ex.spec.side = []
+    obls.append(Obl(prop, 'lemma.' + name, 'step', '-', [n.t > base, hyp] + hside + side, goal, 'lemma'))
+    return obls
+
+
 def direct(ex, prop, name, vars_, stmt, hyps=()):
     st = State()
     env = _env(ex, st, vars_)
